@@ -86,45 +86,52 @@ Needs(n) ==
                                        /\ \/ (Outbound(n, x) /\ height >= x.exp)
                                           \/ (Inbound(n, x) /\ x.hash \in known[n + 1])}}
 SeqOfOps(S) == LET RECURSIVE F(_)
-                   F(T) == IF T = {} THEN <<>> ELSE LET x == CHOOSE y \in T : TRUE IN <<x>> \o F(T \ {x})
+                   F(T) == IF T = {} THEN <<>> ELSE LET x == CHOOSE y \in T : \A z \in T : (y[1] < z[1] \/ (y[1] = z[1] /\ y[2] <= z[2])) IN <<x>> \o F(T \ {x})
                IN F(S)
-MReact(n) ==
-  /\ stage = "react" /\ n \in par.live /\ Needs(n) # {}
-  /\ Bcast(nextId, Rec(n, SeqOfOps(Needs(n)), 1, FALSE))
-  /\ nextId' = nextId + 1
-  /\ UNCHANGED <<stage, shape, blocks, reloads, hist>>
-
-\* ---- handing over what is buried, and sweeping it
+\* The ideal monitor's reaction is one deterministic sequence of observed actions (lower node
+\* first; claims, then hand-overs, then sweeps, then balances) -- the order among them is not
+\* observable from outside a checkpoint, so exploring one order loses nothing.
 Buried(t) == Confirmed(t) /\ height >= conf[t] + AR - 1
-Reportable(n) ==
-  {OP(r) : r \in {x \in Outs : Main(n, x) /\ Buried(com.tx)}}
-  \cup {<<t, 0>> : t \in {u \in DOMAIN conf : txs[u].by = n /\ ~txs[u].sweep /\ u # com.tx /\ Buried(u)}}
-MSpendable(n) ==
-  /\ stage = "react" /\ n \in par.live /\ HasCom
-  /\ \E o \in Reportable(n) \ handed[n + 1] :
-        Spendable(n, <<[op |-> o, confirmed |-> TRUE, amt |-> 1, real_amt |-> 1]>>)
-  /\ UNCHANGED <<stage, nextId, shape, blocks, reloads, hist>>
+Produced(n) ==
+  {OP(r) : r \in {x \in Outs : Main(n, x)}}
+  \cup {<<t, 0>> : t \in {u \in DOMAIN conf : txs[u].by = n /\ ~txs[u].sweep /\ u # com.tx}}
+Reportable(n) == {o \in Produced(n) : Buried(o[1])}
 Unswept(n) == {o \in handed[n + 1] : ~\E t \in DOMAIN txs : txs[t].sweep /\ o \in Ins(t)}
-MSweep(n) ==
-  /\ stage = "react" /\ n \in par.live
-  /\ \E o \in Unswept(n) : Sweep(n, nextId, Rec(n, <<o>>, 1, TRUE), TRUE)
-  /\ nextId' = nextId + 1
-  /\ UNCHANGED <<stage, shape, blocks, reloads, hist>>
-
-\* ---- balances: exactly what is owed
 BalItems(n) ==
   IF ~HasCom \/ com.revoked THEN <<>>
   ELSE LET S == {r \in Outs : Mine(n, r) /\ ~HandedOver(n, r) /\ ~TakenByPeer(n, r)}
            RECURSIVE F(_)
-           F(T) == IF T = {} THEN <<>> ELSE LET x == CHOOSE y \in T : TRUE
+           F(T) == IF T = {} THEN <<>> ELSE LET x == CHOOSE y \in T : \A z \in T : y.v <= z.v
                                             IN <<[k |-> "awaiting", amt |-> x.amt, hash |-> x.hash, hh |-> 0, src |-> ""]>> \o F(T \ {x})
        IN F(S)
+CanReact(n) == n \in par.live /\ Needs(n) # {}
+CanSpend(n) == n \in par.live /\ HasCom /\ Reportable(n) \ handed[n + 1] # {}
+CanSweep(n) == n \in par.live /\ Unswept(n) # {}
+CanBal(n) == n \in par.live /\ bal[n + 1] # BalItems(n)
+First(P(_), n) == P(n) /\ \A m \in {0, 1} : m < n => ~P(m)
+None(P(_)) == \A m \in {0, 1} : ~P(m)
+
+MReact(n) ==
+  /\ stage = "react" /\ First(CanReact, n)
+  /\ Bcast(nextId, Rec(n, SeqOfOps(Needs(n)), 1, FALSE))
+  /\ nextId' = nextId + 1
+  /\ UNCHANGED <<stage, shape, blocks, reloads, hist>>
+MSpendable(n) ==
+  /\ stage = "react" /\ None(CanReact) /\ First(CanSpend, n)
+  /\ LET o == CHOOSE x \in Reportable(n) \ handed[n + 1] : TRUE IN
+        Spendable(n, <<[op |-> o, confirmed |-> TRUE, amt |-> 1, real_amt |-> 1]>>)
+  /\ UNCHANGED <<stage, nextId, shape, blocks, reloads, hist>>
+MSweep(n) ==
+  /\ stage = "react" /\ None(CanReact) /\ None(CanSpend) /\ First(CanSweep, n)
+  /\ LET o == CHOOSE x \in Unswept(n) : TRUE IN Sweep(n, nextId, Rec(n, <<o>>, 1, TRUE), TRUE)
+  /\ nextId' = nextId + 1
+  /\ UNCHANGED <<stage, shape, blocks, reloads, hist>>
 MBal(n) ==
-  /\ stage = "react" /\ n \in par.live /\ bal[n + 1] # BalItems(n)
+  /\ stage = "react" /\ None(CanReact) /\ None(CanSpend) /\ None(CanSweep) /\ First(CanBal, n)
   /\ Balances(n, BalItems(n))
   /\ UNCHANGED <<stage, nextId, shape, blocks, reloads, hist>>
 
-Settled(n) == Needs(n) = {} /\ Reportable(n) \subseteq handed[n + 1] /\ Unswept(n) = {} /\ bal[n + 1] = BalItems(n)
+Settled(n) == ~CanReact(n) /\ ~CanSpend(n) /\ ~CanSweep(n) /\ ~CanBal(n)
 MCheck ==
   /\ stage = "react" /\ \A n \in par.live : Settled(n)
   /\ Checkpoint(height)
@@ -188,7 +195,8 @@ MReload(n) ==
   /\ UNCHANGED <<stage, nextId, shape, blocks>>
 
 AllDone == /\ HasCom /\ Minable = {}
-           /\ \A n \in par.live : Settled(n) /\ Len(bal[n + 1]) = 0
+           /\ \A n \in par.live : Settled(n) /\ Len(bal[n + 1]) = 0 /\ Produced(n) \subseteq handed[n + 1]
+           /\ \A r \in Outs : (IsHtlc(r) /\ ~Spent(OP(r))) => \A n \in par.live : ~Outbound(n, r) /\ ~(com.revoked /\ n = Victim)
 MFinal ==
   /\ stage = "fair" /\ phase = "check" /\ AllDone
   /\ Final([unswept |-> 0, mempool_left |-> <<>>])
